@@ -238,6 +238,8 @@ def mutators(h, family):
                 r = mu.model(m)
                 if r is DC:
                     return DC
+                if r == "raise":
+                    return "raise"      # the compound stops at the call that raises (as its evaluation does)
             return r
         return Mut("; ".join(mu.label for mu in muts), "+".join(mu.kind for mu in muts), muts[-1].qual, do, model)
 
